@@ -24,6 +24,7 @@ TEMPLATES = {
         ("two_protocols_shared", ["PROTOCOL", "PROTOCOL", "ECU-SHARED-DATA", "BASE-VARIANT"], ["o"], []),
         # a layer without communication parameters (ECU-SHARED-DATA) listed after layers that have them
         ("comparams_shared", ["PROTOCOL", "ECU-SHARED-DATA", "BASE-VARIANT"], [], [["cp1", ""], ["cpx", ""]]),
+        ("comparams_two_subsets", ["PROTOCOL", "BASE-VARIANT", "ECU-VARIANT"], [], [["cp1", ""], ["cp1b", ""], ["cpx", ""]]),
     ],
     "thorough": [
         ("chain", ["PROTOCOL", "FUNCTIONAL-GROUP", "BASE-VARIANT", "ECU-VARIANT"], ["o"], []),
@@ -44,6 +45,7 @@ TEMPLATES = {
         ("two_names_rev", ["PROTOCOL", "ECU-SHARED-DATA", "BASE-VARIANT", "ECU-VARIANT"], ["o", "p"], [], True),
         ("two_protocols_shared", ["PROTOCOL", "PROTOCOL", "ECU-SHARED-DATA", "BASE-VARIANT", "ECU-VARIANT"], ["o"], []),
         ("comparams_shared", ["PROTOCOL", "ECU-SHARED-DATA", "BASE-VARIANT", "ECU-VARIANT"], [], [["cp1", ""], ["cpx", ""], ["cp1", "L1"]]),
+        ("comparams_two_subsets", ["PROTOCOL", "BASE-VARIANT", "ECU-VARIANT"], [], [["cp1", ""], ["cp1b", ""], ["cpx", ""], ["cp1b", "L1"]]),
     ],
 }
 
@@ -94,13 +96,24 @@ def subset_doc() -> str:
     return og.comparam_subset_doc("CSS", "CSS", body)
 
 
-CP_ID = {"cp1": "CSS.cp1", "cpx": "CSS.cpx"}
-CP_NAME = {"cp1": "CP_Baudrate", "cpx": "CP_UniqueRespIdTable"}
+def subset2_doc() -> str:
+    """a second subset with a parameter of the same short name as one of the first (a parameter is its specification, not its name)"""
+    dop = og.dop("CSS2.DOP", "u32", og.dct_standard("A_UINT32", 32))
+    cp = og.tag("COMPARAM", og.sn("CP_Baudrate") + "<PHYSICAL-DEFAULT-VALUE>125000</PHYSICAL-DEFAULT-VALUE>" +
+                og.ref("DATA-OBJECT-PROP-REF", "CSS2.DOP"),
+                **{"ID": "CSS2.cp1", "PARAM-CLASS": "COM", "CPTYPE": "STANDARD", "CPUSAGE": "ECU-COMM"})
+    return og.comparam_subset_doc("CSS2", "CSS2", og.tag("COMPARAMS", cp) + og.tag("DATA-OBJECT-PROPS", dop))
+
+
+CP_ID = {"cp1": "CSS.cp1", "cpx": "CSS.cpx", "cp1b": "CSS2.cp1"}
+CP_NAME = {"cp1": "CP_Baudrate", "cpx": "CP_UniqueRespIdTable", "cp1b": "CP_Baudrate"}
 
 
 def comparam_ref(key: List[str], layer_idx: int) -> str:
     name, proto = key
-    if name == "cp1":
+    if name == "cp1b":
+        val = f"<SIMPLE-VALUE>{1000 * layer_idx + (1 if proto else 0)}</SIMPLE-VALUE><DESC><p>owner {layer_idx}</p></DESC>"
+    elif name == "cp1":
         # every third layer leaves the value out (the default of the specification applies); the owner is told by the DESC
         v1 = "" if layer_idx % 3 == 0 else str(1000 * layer_idx + (1 if proto else 0))
         # (protocol-specific ones in the ODX 2.0.0 spelling VALUE)
@@ -113,7 +126,7 @@ def comparam_ref(key: List[str], layer_idx: int) -> str:
                      f"<SIMPLE-VALUE>{100 + layer_idx + (50 if proto else 0)}</SIMPLE-VALUE>"
                      f"<SIMPLE-VALUE>{second}</SIMPLE-VALUE>")
     body = val + (og.snref("PROTOCOL-SNREF", proto) if proto else "")
-    return og.tag("COMPARAM-REF", body, **{"ID-REF": CP_ID[name], "DOCREF": "CSS", "DOCTYPE": "COMPARAM-SUBSET"})
+    return og.tag("COMPARAM-REF", body, **{"ID-REF": CP_ID[name], "DOCREF": CP_ID[name].split(".")[0], "DOCTYPE": "COMPARAM-SUBSET"})
 
 
 def build_docs(cfg: Dict[str, Any]) -> List[str]:
@@ -166,8 +179,8 @@ def build_docs(cfg: Dict[str, Any]) -> List[str]:
     if cfg.get("rev"):
         # one container per layer, children in front of their parents (the order in which documents are resolved and finalized
         # must not matter)
-        return [CS_DOC, subset_doc()] + [og.container(f"DLC{i}", f"DLC{i}", [layers[i - 1]]) for i in range(len(layers), 0, -1)]
-    return [CS_DOC, subset_doc(), og.container("DLC", "DLC", layers)]
+        return [CS_DOC, subset_doc(), subset2_doc()] + [og.container(f"DLC{i}", f"DLC{i}", [layers[i - 1]]) for i in range(len(layers), 0, -1)]
+    return [CS_DOC, subset_doc(), subset2_doc(), og.container("DLC", "DLC", layers)]
 
 
 def owner(obj: Any) -> int:
@@ -325,7 +338,10 @@ def process(cfgs: List[Dict[str, Any]]) -> Dict[str, Any]:
                 except Exception as e:  # noqa: BLE001
                     fail("C15", "accessor_raises", cfg, {"layer": i, "name": "absent comparam accessors", "protocol": proto_,
                                                          "exc": type(e).__name__, "msg": str(e)[:100], "omitted": False})
+            two_of_a_name = any(kk[0] == "cp1b" and o != 0 for (kk, o) in cfg["eff"][i - 1])
             for (name, proto, (own, which)) in cfg["lookup"][i - 1]:
+                if name == "cp1" and two_of_a_name:
+                    continue           # which of two parameters of one short name a lookup by name returns is not prescribed
                 if proto and (int(proto[1:]) > n or cfg["types"][int(proto[1:]) - 1] != "PROTOCOL"):
                     continue           # not a protocol of this configuration
                 st["comparam_lookups"] += 1
@@ -433,7 +449,7 @@ def process(cfgs: List[Dict[str, Any]]) -> Dict[str, Any]:
 
 
 def CP_KEY(cp: Any) -> str:
-    return "cp1" if cp.short_name == "CP_Baudrate" else "cpx"
+    return {v_: k_ for k_, v_ in CP_ID.items()}[cp.spec_ref.ref_id]
 
 
 def _cp_owner(cp: Any) -> int:
